@@ -26,16 +26,17 @@ type TierCfg struct {
 }
 
 type HarnessCfg struct {
-	Pkg       string   `json:"pkg"`
-	Func      string   `json:"func"`
-	Label     string   `json:"label"`
-	Arith     bool     `json:"arith"`
-	Solver    string   `json:"solver"`
-	Portfolio []string `json:"portfolio"`
-	Quick     *TierCfg `json:"quick"`
-	Thorough  *TierCfg `json:"thorough"`
-	Reach     []string `json:"reach"`
-	What      string   `json:"what"`
+	Pkg       string            `json:"pkg"`
+	Func      string            `json:"func"`
+	Label     string            `json:"label"`
+	Arith     bool              `json:"arith"`
+	Solver    string            `json:"solver"`
+	Portfolio []string          `json:"portfolio"`
+	Quick     *TierCfg          `json:"quick"`
+	Thorough  *TierCfg          `json:"thorough"`
+	Reach     []string          `json:"reach"`
+	Summaries map[string]string `json:"summaries"`
+	What      string            `json:"what"`
 }
 
 type PropCfg struct {
@@ -159,7 +160,7 @@ func cmdCheck(args []string) int {
 		}
 		hr := &HarnessRun{Name: name, Pkg: pkgPath(h.Pkg), Func: h.Func, Params: tc.Params, Arith: h.Arith, ConcretizeCap: tc.ConcretizeCap,
 			StepBudget: tc.StepBudget, MaxPaths: tc.MaxPaths, TimeoutS: tc.TimeoutS, Solver: h.Solver, Portfolio: h.Portfolio, IncTimeoutMs: tc.IncTimeoutMs,
-			QueryTimeoutMs: tc.QueryTimeoutMs, Workers: *workers, Reach: h.Reach}
+			QueryTimeoutMs: tc.QueryTimeoutMs, Workers: *workers, Reach: h.Reach, Summaries: h.Summaries}
 		if hr.Params == nil {
 			hr.Params = map[string]int{}
 		}
@@ -557,7 +558,7 @@ func writeEvidence(prop, tier string, seed int, pc *PropCfg, eng *Engine, result
 			"reach": r.Stats.Reached, "choices": r.Stats.Choices, "steps": r.Stats.Steps, "max_decision_depth": r.Stats.MaxDepth,
 			"solver": r.Run.Solver, "portfolio": r.Run.Portfolio, "solver_time_s": r.Stats.SolverTime.Seconds(), "solver_queries": r.Stats.SolverQueries, "one_shot_queries": r.Stats.FreshQueries, "float_results_overapproximated": r.Stats.OpaqueInts, "sampled_value_classes": r.Stats.SampledClasses,
 			"wall_s": r.Wall.Seconds(), "not_established": hne, "violation_counts": r.VioCount, "stopped": r.Stopped,
-			"known_region_paths": r.Stats.KnownHits, "functions_encoded": len(r.Funcs),
+			"known_region_paths": r.Stats.KnownHits, "callee_summaries": r.Run.Summaries, "functions_encoded": len(r.Funcs),
 		})
 		for _, s := range r.Stats.Samples {
 			delete(s, "witness_inputs_full")
